@@ -94,7 +94,7 @@ _hv_forward["ensures"] = list(_hv_forward["ensures"]) + ["final(self).ctx == old
 UNIT = {
     "name": "lattice_constrain",
     "env": [os.path.join(ENV, "lattice_constrain_env.rs")],
-    "declared_trusted": {r"external_body": 28},
+    "declared_trusted": {r"external_body": 33},
     "items": [
         {"kind": "enum", "file": "bindgen/ir/analysis/mod.rs", "name": "ConstrainResult", "prefix": "#[derive(Copy, Clone, PartialEq, Eq, Structural)]"},
         {"kind": "enum", "file": HV, "name": "HasVtableResult", "prefix": "#[derive(Copy, Clone, PartialEq, Eq, Structural)]"},
@@ -109,7 +109,13 @@ UNIT = {
         {"kind": "fn", "file": HV, "name": "constrain", **HVI, "ret": "r",
          "subst": [
              # the closure holds one trace! line and the key test; both anchors are literal, nothing else is hidden
-             (("info.base_members().iter().any(|base| {", "self.have_vtable.contains_key(&base.ty.into()) });"), "any_base_has_key(&self.have_vtable, info);", 1, "R5"),
+             # `.any(|base| { BODY })` -> cursor loop with BODY verbatim (rule R25); BODY's `base.ty.into()` -> `.item()` (R12)
+             (r"re:(?s)info\.base_members\(\)\.iter\(\)\.any\(\|base\|\s*\{(.*?)\}\);",
+              r"{ let mut it = BaseCursor::new(info.base_members()); let mut found = false; while it.has_next() && !found "
+              r"invariant it.all() == info.s_bases() && 0 <= it.pos() <= it.all().len(), "
+              r"found == (exists|j: int| 0 <= j < it.pos() && #[trigger] self.have_vtable.view().dom().contains(info.s_bases()[j].ty.0)) "
+              r"decreases it.all().len() - it.pos() { let base = it.next_item(); found = {\1}; } found };", 1, "R25 Iterator::any"),
+             ("base.ty.into()", "base.ty.item()", 0, "R12 (if present)"),
              ("self.forward(t, id)", "self.forward(t.item(), id)", 1, "R12"),
              ("self.forward(inst.template_definition(), id)", "self.forward(inst.template_definition().item(), id)", 1, "R12"),
          ],
